@@ -23,7 +23,7 @@ MAXPKT = 1100       # frame space of an empty 1-RTT packet is > 1100 for the 120
 def hit(line):
     """a DATAGRAM frame was written into a packet / seen on the wire, or a datagram reached an application"""
     return ('"ev":"pack"' in line and '"ret":"ok"' in line) or ('"ev":"read"' in line and '"ret":"ok"' in line) \
-        or '"ev":"cwire"' in line or '"ev":"cread"' in line
+        or '"ev":"cwire"' in line or '"ev":"cread' in line
 
 
 def mc_jobs(quick):
